@@ -521,13 +521,23 @@ pub fn run_c14(scn: &C14Scn, st: &mut Stats) -> RunResult {
         if v.len() >= 3 {
             break;
         }
-        let fault = Fault { call: k, kind: FAULT_KINDS[(k + scn.salt) % FAULT_KINDS.len()].to_string(), payload: ["", "", "msg", "nested:Interrupted", "nested:BrokenPipe", "seqio", "os:29", "os:5", "os:11", "os:28"][(k + scn.salt / 8) % 10].to_string() };
-        // the label that has to come back: the kind and, for OS errors, the raw code
-        let label = crate::seam::fault_label(&fault);
-        let kind = label.as_str();
+        let mut fault = Fault { call: k, kind: FAULT_KINDS[(k + scn.salt) % FAULT_KINDS.len()].to_string(), payload: ["", "", "msg", "nested:Interrupted", "nested:BrokenPipe", "seqio", "os:29", "os:5", "os:11", "os:28"][(k + scn.salt / 8) % 10].to_string() };
+        if (k + scn.salt / 5) % 4 == 0 {
+            // one fault point in four: should call k be a seek, it fails with kind Interrupted
+            // (a read gets kind Other instead - an interrupted *read* is retried, see above)
+            fault.kind = crate::seam::SEEK_INTERRUPTED.to_string();
+            fault.payload = String::new();
+        }
         let mut c = cfg0.clone();
         c.faults = vec![fault];
         let log = drive(base, &c, &targets);
+        // the label that has to come back: the kind and, for OS errors, the raw code - as recorded
+        // by the seam when the fault fired
+        let label = log.steps.iter().find_map(|s| s.seam.faults.first().cloned()).unwrap_or_default();
+        let kind = label.as_str();
+        if kind == "Interrupted" {
+            st.probe("probe.seek_failed_with_interrupted");
+        }
         hash = vcore::mix(hash, log.log_hash);
         st.count("step.fault_points_enumerated", 1);
         st.count(&format!("fault.io_error.{}", kind), log.faults);
@@ -617,12 +627,12 @@ impl Check for C14 {
         out
     }
     fn rule_text(&self) -> String {
-        "per sampled (input, capacity, chunk script, history incl. seeks): one fault-free run counts the N source calls (reads and seeks); then for EVERY k < N (all when N <= 96, else 96 spread incl. first and last) the run is repeated with an error of kind FAULT_KINDS[(k+salt) mod 8] injected at call k. Oracle: observations before the failing call equal the fault-free log; the operation during which call k happened returns Io(kind) (never end of input, a record, a truncation or format error); afterwards end / error / genuine records in ascending order. Separately any Interrupted pattern (0..90 % density) must give the identical observation log as the same script without interruptions. evaluations = sampled scenarios; coverage.sim_steps.fault_points_enumerated = total injected runs. Non-trivial: the fault-free run refilled/grew; distinct by (input, event log).".into()
+        "per sampled (input, capacity, chunk script, history incl. seeks): one fault-free run counts the N source calls (reads and seeks); then for EVERY k < N (all when N <= 96, else 96 spread incl. first and last) the run is repeated with an error of kind FAULT_KINDS[(k+salt) mod 8] injected at call k (one point in four: kind Interrupted if call k is a seek). Oracle: observations before the failing call equal the fault-free log; the operation during which call k happened returns Io(kind) (never end of input, a record, a truncation or format error); afterwards end / error / genuine records in ascending order. Separately any Interrupted pattern (0..90 % density) must give the identical observation log as the same script without interruptions. evaluations = sampled scenarios; coverage.sim_steps.fault_points_enumerated = total injected runs. Non-trivial: the fault-free run refilled/grew; distinct by (input, event log).".into()
     }
     fn assumptions(&self) -> Vec<String> {
         vec![
             "complete over k for each sampled scenario (up to 96 calls), sampled over scenarios".into(),
-            "Interrupted is injected on reads only; a seek failing with that kind is 'any other error' and covered by the drawn kinds".into(),
+            "a *read* failing with Interrupted is an interruption (retried, invisible); a *seek* failing with that kind is 'any other error raised during a seek' and has to come back as Io(Interrupted): one fault point in four uses that kind if the call is a seek".into(),
         ]
     }
     fn components(&self) -> Value {
